@@ -231,52 +231,73 @@ def run(ctx, anchors=None):
     judge = fb.fn("CheckMinimalPush", file="script/script.cpp")
     reader = fb.fn("GetScriptOp", file="script/script.cpp")
     _cm.require_names(reader, ["opcode", "pc", "nSize"], "R07.2")
-    _cm.require_names(judge, ["data", "opcode"], "R07.2")
+    if len(judge.params) != 2 or len(writer.params) != 1:
+        raise AnalysisBroken("R07.2: CheckMinimalPush(data, opcode) / operator<<(vector) signatures changed")
 
-    def is_size_of(param):
-        def pred(e):
-            while e is not None and e.get("k") == "cast":
-                e = e["e"]
-            return e is not None and e.get("k") == "mcall" and e.get("n") == "size" and e.get("obj") is not None and e["obj"].get("n") == param
-        return pred
-    # writer ladder
-    heads = [n for n in writer.nodes() if n["k"] == "if" and not (writer.parent(n) is not None and writer.parent(n).get("k") == "if" and writer.parent(n).get("else") is n)]
-    wl = None
-    for h in heads:
-        arms = chain_arms(writer, h)
-        th = [size_threshold(c, is_size_of(writer.params[0]["n"])) if c is not None else None for (c, b) in arms]
-        if len(arms) >= 3 and th[0] is not None:
-            wl = (arms, th)
-    if wl is None:
-        raise AnalysisBroken("R07.2: writer ladder not found")
-    arms, wth = wl
+    from .. import symx, ladders
+    X = symx.Explorer(prog, inline=lambda fn, n: False, transparent=lambda n: True)
+    PD = {E["OP_PUSHDATA1"]: "OP_PUSHDATA1", E["OP_PUSHDATA2"]: "OP_PUSHDATA2", E["OP_PUSHDATA4"]: "OP_PUSHDATA4"}
 
-    def arm_facts(body):
-        ops = [x["n"] for x in walk(body) if x["k"] == "ref" and x.get("dk") == "enumc" and x["n"].startswith("OP_PUSHDATA")]
+    def explore(func, **kw):
+        try:
+            return X.explore(func, **kw)
+        except symx.Unsupported as e:
+            raise AnalysisBroken("R07.2: %s: %s" % (func.name, e))
+    # writer ladder: classes read off the decided conditions on b.size(); per class the opcode byte and the width of the length field
+    B = ("a", "b")
+    BS = ("ap", "m:size", B)
+    wclasses = []
+    for o in explore(writer, this=("a", "this"), params={writer.params[0]["n"]: B}):
+        if o.status not in ("ret", "end"):
+            continue
+        lo, hi = ladders.interval(o.conds, BS)
+        if hi is not None and lo > hi:
+            continue
+        ins = [e for e in o.events if (e.kind == "mcall" and e.name == "insert") or (e.kind == "call" and e.name in ("WriteLE16", "WriteLE32"))]
+        op = None
         width = None
-        for x in walk(body):
-            if x["k"] == "call" and x.get("n") in ("WriteLE16", "ReadLE16"):
-                width = 2
-            if x["k"] == "call" and x.get("n") in ("WriteLE32", "ReadLE32"):
-                width = 4
-        if width is None and ops:
-            width = 1
-        return (ops[0] if ops else None, width)
-    wclasses = [(t, arm_facts(b)) for (t, (c, b)) in zip(wth, arms)]
-    # judge ladder: last three size conds
-    jheads = [n for n in judge.nodes() if n["k"] == "if" and not (judge.parent(n) is not None and judge.parent(n).get("k") == "if" and judge.parent(n).get("else") is n)]
+        payload = False
+        for e in ins:
+            if e.kind == "call":
+                width = 2 if e.name == "WriteLE16" else 4
+                if e.terms[-1] != BS:
+                    width = "length field is not b.size()"
+            elif len(e.terms) == 3 and symx.is_const(e.terms[2]) and e.terms[2][1] in PD:
+                op = PD[e.terms[2][1]]
+            elif len(e.terms) == 3 and e.terms[2] == BS and op is not None:
+                width = 1
+            elif len(e.terms) == 4 and e.terms[2] == ("ap", "m:begin", B) and e.terms[3] == ("ap", "m:end", B):
+                payload = True
+        wclasses.append((lo, hi, (op, width) if payload else ("payload not appended", None)))
+    wclasses.sort(key=lambda x: x[0])
+    wclasses = [(hi, f_) for (hi, f_) in [(c[1], c[2]) for c in wclasses]] if [c[0] for c in wclasses] == [0] + [c[1] + 1 for c in wclasses[:-1] if c[1] is not None] else [("classes do not tile", None)]
+    # judge ladder
+    D, OPC = ("a", "data"), ("a", "opcode")
+    DS = ("ap", "m:size", D)
+    D0 = ("ap", "[]", D, symx.C(0))
+    jall = []
+    for o in explore(judge, params={judge.params[0]["n"]: D, judge.params[1]["n"]: OPC}):
+        if o.status != "ret":
+            continue
+        lo, hi = ladders.interval(o.conds, DS)
+        dlo, dhi = ladders.interval(o.conds, D0, top=255)
+        if (hi is not None and lo > hi) or dlo > dhi:
+            continue
+        jall.append((lo, hi, dlo, dhi, o.ret))
     jcl = []
-    for h in jheads:
-        for (c, b) in chain_arms(judge, h):
-            if c is None:
-                continue
-            if len(S.conjuncts(c)) != 1:
-                continue
-            t = size_threshold(c, is_size_of(judge.params[0]["n"]))
-            if t is not None and t >= 75:
-                ops = [x["n"] for x in walk(b) if x["k"] == "ref" and x.get("dk") == "enumc" and x["n"].startswith("OP_PUSHDATA")]
-                direct = any(x["k"] == "mcall" and x.get("n") == "size" for x in walk(b))
-                jcl.append((t, ops[0] if ops else ("<size>" if direct else None)))
+    for (lo, hi, dlo, dhi, ret) in sorted(set(jall), key=lambda x: (x[0], x[2])):
+        if lo < 2 or hi is None:
+            continue
+        kind = None
+        if isinstance(ret, tuple) and ret[0] == "eq" and OPC in ret[1:]:
+            other = ret[2] if ret[1] == OPC else ret[1]
+            kind = "<size>" if other == DS else (PD.get(other[1]) if symx.is_const(other) else symx.show(other))
+        else:
+            kind = symx.show(ret)
+        jcl.append((hi, kind))
+    single_rejected = sorted({(dlo, dhi) for (lo, hi, dlo, dhi, ret) in jall if (lo, hi) == (1, 1) and ret == symx.C(0)})
+    single_other = sorted({symx.show(ret) for (lo, hi, dlo, dhi, ret) in jall if (lo, hi) == (1, 1) and ret != symx.C(0)})
+    empty_ret = sorted({symx.show(ret) for (lo, hi, dlo, dhi, ret) in jall if (lo, hi) == (0, 0)})
     # reader ladder
     rcl = []
     for n in reader.nodes():
@@ -330,9 +351,9 @@ def run(ctx, anchors=None):
         detail = "%s -> n+%s; %s -> %s" % (c0, off, c1, b1)
     ctx.inst(ok3, "R07.3", "push_int64", pi.loc(), "push_int64: -1,1..16 -> n + (OP_1-1); 0 -> OP_0; else serialized number",
              "push_int64 maps small integers as `%s`; expected -1,1..16 -> n+%d and 0 -> OP_0" % (detail, E["OP_1"] - 1))
-    jt = " ".join(astq.estr(c).replace(" ", "") for h in jheads for (c, b) in chain_arms(judge, h) if c is not None)
-    ctx.inst("(data[0]>=1)" in jt and "(data[0]<=16)" in jt and "(data[0]==129)" in jt, "R07.3", "judge-single-byte", judge.loc(),
-             "CheckMinimalPush rejects single bytes 1..16 and 0x81 (must be OP_1..OP_16 / OP_1NEGATE)")
+    ctx.inst(single_rejected == [(1, 16), (129, 129)] and single_other == ["eq(opcode, m:size(data))"] and empty_ret == ["eq(opcode, 0)"], "R07.3", "judge-single-byte", judge.loc(),
+             "CheckMinimalPush rejects single bytes 1..16 and 0x81 (must be OP_1..OP_16 / OP_1NEGATE); an empty push must be OP_0",
+             "CheckMinimalPush rejects the single bytes %s (expected 1..16 and 0x81), judges other single bytes by %s and the empty push by %s" % (single_rejected, single_other, empty_ret))
     opstep = fb.fn("StepScript", file="script/interpreter.cpp")
     dec = None
     for n in opstep.nodes():
